@@ -855,6 +855,14 @@ func runBounded(b BoundedSpec, repo, replayDir string) boundedResult {
 			res.Failures = append(res.Failures, boundedFailure{Name: name, Path: p})
 		}
 	}
+	if cases == 0 && len(res.Failures) == 0 && (strings.Contains(out, "[build failed]") || strings.Contains(out, "[setup failed]")) {
+		// the harness does not compile against this tree (an identifier it uses was renamed or removed): that is not a verdict
+		res.Summary["tool_error"] = truncate(out, 1500)
+		res.Summary["cases"] = 0
+		res.Summary["failures"] = 0
+		res.Summary["wall_s"] = time.Since(t0).Seconds()
+		return res
+	}
 	if cases == 0 && len(res.Failures) == 0 {
 		// harness did not run: report as a failure of the bounded check itself
 		p := writeReplay(replayDir, "bounded_"+b.Name+"_norun", map[string]interface{}{"obligation": "bounded:" + b.Name + "#ran", "output": truncate(out, 4000)})
